@@ -107,7 +107,12 @@ def run(pid, tier, seed):
             continue
         objs = [b[0] for b in built]
         k = chk.rng.choice(eng_k)
-        t = shrink_types([get_type(o, k) for o in objs], k)
+        try:
+            t = shrink_types([get_type(o, k) for o in objs], k)
+        except Exception as e:
+            # shrink_types runs a rewriter itself (TypedDicts -> Dict in the mixed branch): a crash there is a rewriter crash
+            chk.fail("crash-in-inference", {"k": k, "values": [sexp.dumps(b[1]) for b in built], "error": repr(e)[:300]})
+            continue
         try:
             raw = tyconv.ty_to_tree(t, tbl)
         except tyconv.Unrepresentable:
